@@ -42,7 +42,7 @@ def obligations(tier, seed):
     patch = PROPOSED_PATCH if os.environ.get("C19_PROPOSED_PATCH") == "1" else None
     RB = ["vbi_proxyd_acq_thread"]     # acquisition-thread mode is outside the claim; CBMC would otherwise treat the thread body as a target of capture->method() calls
     common = dict(harness="h_c19.c", units=U, models=M, stubs=STUBS, patch=patch, ignore=UB_IGNORE, remove_bodies=RB)
-    uw = {"_vbi_strlcpy.0": 130, "memcmp.0": 18, "recv.0": 17, "c19_log_send.1": 17, "h_msg.3": 110}
+    uw = {"_vbi_strlcpy.0": 130, "memcmp.0": 18, "recv.0": 17, "c19_log_send.0": 17, "c19_log_send.1": 17, "h_msg.3": 110}
     INV = ["daemon invariant between events (asserted again after every step): <= 1 client per device with token_state != NONE, scheduler cycle_count in 0..2, "
            "time stamps in [0,2^32), device open <=> capture+decoder present, frame queue: every queued frame referenced exactly by the clients at or before it, "
            "never both queued and free, cursors inside the queue; connections are WAIT_CON_REQ (as vbi_proxyd_add_connection leaves them) or FORWARD"]
@@ -80,19 +80,21 @@ def obligations(tier, seed):
            quick_grid=[g(RBUF=24, C19_MAXCHUNK=32, C19_NIO=6), g(RBUF=40, C19_MAXCHUNK=16, C19_NIO=6)],
            reach=["end", "dropped", "complete", "partial"], timeout=900, mem_gb=5, vin_size=512, **common),
         Ob("event_loop", func="h_loop", unwind=6, unwindset=uw,
-           desc="event loop body on faulty streams: LOOPS iterations of the REAL vbi_proxyd_get_fd_set + (select: any subset ready) + vbi_proxyd_handle_client_sockets for NCL "
-                "connections without services (device closed): every connection is watched, a dropped connection is closed once, unlinked and freed, the client count is "
-                "right, read offsets stay inside msg_buf, a connection that was not ready and did not time out is untouched; invariant kept.  Message semantics are "
-                "abstracted here (check_msg/take_message: any result, no effect) - they are the subject of msg_take",
-           encodes=["vbi_proxyd_handle_client_sockets", "vbi_proxyd_get_fd_set", "vbi_proxy_msg_handle_read", "vbi_proxy_msg_handle_write", "vbi_proxyd_close",
-                    "vbi_proxy_msg_close_io", "vbi_proxy_msg_check_timeout", "vbi_proxy_msg_write"],
-           bounds="LOOPS iterations, NCL connections, <= C19_NIO recv and send calls, recv <= C19_MAXCHUNK bytes per call; " + WORLD, assumes=INV,
-           outside="connections with services / queued frames (disconnect, upd_services obligations)",
-           grid=[g(NCL=2, LOOPS=2, C19_MAXCHUNK=8, C19_NIO=3), g(NCL=1, LOOPS=3, C19_MAXCHUNK=8, C19_NIO=4)],
-           quick_grid=[g(NCL=1, LOOPS=2, C19_MAXCHUNK=8, C19_NIO=3), g(NCL=2, LOOPS=2, C19_MAXCHUNK=4, C19_NIO=2)],
-           remove_bodies=RB + ["vbi_proxyd_check_msg", "vbi_proxyd_take_message"],
-           reach=["end", "dropped", "survived"], timeout=900, mem_gb=5, vin_size=2048,
-           **{k: v for k, v in common.items() if k != "remove_bodies"}),
+           desc="event loop body, INV-STEP over connection I/O states (partial messages, silence, disconnect at any byte): one iteration of the REAL vbi_proxyd_get_fd_set + "
+                "(select: ready or not) + vbi_proxyd_handle_client_sockets for one connection without services (device closed) that is RDOFF bytes into a message "
+                "(RDOFF on the grid: 0 idle, 3 inside the header, 8 header complete, 12 inside the body; length field symbolic): no assert() of the daemon fails, the I/O "
+                "invariant (offset < 8 => no length yet; else 8 <= length <= sizeof msg_buf, offset < length; no write while reading) holds again, every connection is watched, "
+                "a dropped connection is closed once, unlinked and freed, the client count is right.  Message semantics are abstracted (check_msg/take_message: any result, "
+                "no effect; update_services/channel_update/send_sliced: unreachable in this state, bodies removed) - they are the subject of msg_take / disconnect / C18",
+           encodes=["vbi_proxyd_handle_client_sockets", "vbi_proxyd_get_fd_set", "vbi_proxy_msg_handle_read", "vbi_proxy_msg_handle_write", "vbi_proxy_msg_is_idle",
+                    "vbi_proxy_msg_read_idle", "vbi_proxyd_close", "vbi_proxy_msg_close_io", "vbi_proxy_msg_check_timeout", "vbi_proxy_msg_write"],
+           bounds="one iteration; one recv()/send() call succeeds (<= 8 bytes), further calls in the same iteration see EAGAIN; " + WORLD, assumes=INV + ["I/O invariant of the connection"],
+           outside="several reads of one connection in one run (offsets become symbolic: symex stalls, measured > 900 s); two or more connections in the same loop run "
+                   "(measured: symex > 400 s without verdict); connections with services (disconnect, upd_services)",
+           grid=[g(NCL=1, RDOFF=r, C19_MAXCHUNK=8, C19_NIO=1) for r in (0, 3, 8, 12)],
+           remove_bodies=RB + ["vbi_proxyd_check_msg", "vbi_proxyd_take_message", "vbi_proxyd_update_services", "vbi_proxyd_channel_update", "vbi_proxyd_send_sliced"],
+           reach=["end", "dropped", "survived"], timeout=300, mem_gb=3, vin_size=2048,
+           **{k: v for k, v in common.items() if k not in ("remove_bodies", "ignore")}, ignore=UB_IGNORE + [r"no body for callee"]),
         Ob("msg_take", func="h_msg", unwind=6, unwindset=uw,
            desc="message robustness: vbi_proxyd_check_msg + vbi_proxyd_take_message (+ the glue of vbi_proxyd_handle_client_sockets, proxyd.c:2413-2428) on a fully "
                 "symbolic message buffer (length, every body byte), message type case-split on the grid (all 9 request types + 'any other value'), in every connection "
